@@ -271,11 +271,12 @@ theorem handleGet1_getLine (st : Store) (s : String) (sup : Bool) (fuel : Nat) :
     intro f l hl
     rw [handleGet1] at hl
     split at hl
-    · simp only [List.mem_flatMap] at hl
-      obtain ⟨e, _, hl⟩ := hl
+    · simp only at hl
       split at hl
-      · exact sendStored_getLine _ _ _ _ l hl
-      · simp at hl
+      · simp at hl; subst hl; exact Or.inl (by decide)
+      · simp only [List.mem_flatMap] at hl
+        obtain ⟨e, _, hl⟩ := hl
+        exact sendStored_getLine _ _ _ _ l hl
     · split at hl
       · simp only at hl
         split at hl
